@@ -851,7 +851,7 @@ class Interp:
             if r:
                 f = FuncRef(r[0].mod, r[1], r[0])
                 if f.is_property:
-                    return self.call(f, [], {}, selfobj=obj)
+                    return self.run(f, [], {}, selfobj=obj)  # trivial getters are executed, not abstracted
                 if f.is_static:
                     return f
                 return BoundMethod(obj, f)
